@@ -24,9 +24,14 @@ Record wvariant := mkWV {
   wv_ptr_limit : bool;      (* names at offsets >= 0x4000 are not registered for compression *)
   wv_len_check : bool;      (* ares_dns_write refuses messages longer than 65535 octets *)
   wv_name_no_trunc : bool;  (* names longer than the 511-octet scratch copy are refused, not truncated *)
-  wv_raw_empty : bool }.    (* RAW_RR without data is written with empty RDATA *)
-Definition wfixed : wvariant := mkWV true true true true true.
-Definition wpinned : wvariant := mkWV false false false false false.
+  wv_raw_empty : bool;      (* RAW_RR without data is written with empty RDATA *)
+  wv_strip_dangling_escape : bool }.
+    (* NOT in any tree: a hypothetical "repair" that drops an odd trailing backslash of the prefix left
+       in front of a compression target, so that "john\.smith.example.com" after "smith.example.com"
+       is written as "john" + pointer; only used for C03_suffix_match_refuted_if_escape_stripped *)
+Definition wfixed : wvariant := mkWV true true true true true false.
+Definition wpinned : wvariant := mkWV false false false false false false.
+Definition wstrip : wvariant := mkWV true true true true true true.
 
 (* [w_rev] holds the live octets LAST OCTET FIRST (appending one octet is a cons), [w_n] is their
    number; [w_live] is the abstraction *)
@@ -165,6 +170,12 @@ Definition split_dns_name (validate : bool) (name : list N) : outcome (list (lis
   if negb (Nat.eqb (length ls) 0) && (total_len + Z.of_nat (length ls) - 1 >? 255) then Err ARES_EBADNAME
   else Ok ls.
 
+(* number of trailing backslashes / the hypothetical repair *)
+Fixpoint leading_backslashes (r : list N) : nat :=
+  match r with c :: t => if N.eqb c 92 then S (leading_backslashes t) else O | [] => O end.
+Definition strip_odd_backslash (t : list N) : list N :=
+  if Nat.odd (leading_backslashes (rev t)) then removelast t else t.
+
 Section Writer.
   Variable wv : wvariant.
   Variable base : Z.     (* ares_buf_len(buf) when ares_dns_write_buf() started: start of the message *)
@@ -180,7 +191,8 @@ Section Writer.
     let off := match nl with Some l => nameoffset_find l name_copy | None => None end in
     let name_copy := match off with
                      | Some (on, _) => if negb (slen on =? orig_name_len)
-                                       then firstn (Z.to_nat (orig_name_len - (slen on + 1))) name_copy
+                                       then (if wv_strip_dangling_escape wv then strip_odd_backslash else fun t => t)
+                                              (firstn (Z.to_nat (orig_name_len - (slen on + 1))) name_copy)
                                        else name_copy
                      | None => name_copy
                      end in
